@@ -807,12 +807,53 @@ def perfeature(run, fx):
         run.held('SETRANGE', inst, fn.loc(ce), 'by-value arguments are per-iteration locals%s' % (' (%d declared outside, assigned on every path)' % n if n else ''))
 
 
+def findref_exec(run, fx):
+    """LANGMATCH / "a feature is found by the id the font gives it": FeatureMap::findFeatureRef is what readSill resolves the settings of
+    a language with, by the ids as the Sill table spells them (tags coming in through the API are normalised before they get here, in
+    gr_face_find_fref).  It is interpreted (rules/ordint.py) on maps of 1..4 features whose ids differ only in their padding -- numeric
+    ids ending in 0x20, space- and zero-padded spellings of one tag -- sorted and unsorted: every id in the map finds its own feature,
+    and an id that is not in the map finds none."""
+    import itertools
+    from . import ordint as O
+    fn = fx.one('graphite2::FeatureMap::findFeatureRef')
+    PM, PN = 'graphite2::FeatureMap::', 'graphite2::NameAndFeatureRef::'
+    inst = 'findFeatureRef finds the feature with exactly that id (interpreted)'
+    ids = (0x00000400, 0x00000420, 0x61622020, 0x61620000, 0x20202020, 0, 0x61626364, 1)
+    cases = 0
+    try:
+        for n in (1, 2, 3, 4):
+            for combo in itertools.permutations(ids, n) if n <= 2 else itertools.combinations(ids, n):
+                refs = [O.Rec({'#feat': i_}) for i_ in combo]
+                vec = O.Vec([O.Rec({PN + 'm_name': i_, PN + 'm_pFRef': O.Ptr(r_)}) for i_, r_ in zip(combo, refs)])
+                fm = O.Rec({PM + 'm_numFeats': n, PM + 'm_pNamedFeats': O.It(vec, 0), PM + 'm_feats': O.Ptr(None)})
+                for q in ids:
+                    it = O.Interp(fx)
+                    it.MAX_STEPS = 3000
+                    cases += 1
+                    r = it.call(fn, fm, [q])
+                    got = r.rec['#feat'] if isinstance(r, O.Ptr) and r.rec is not None else None
+                    want = q if q in combo else None
+                    if got != want:
+                        run.violated('LANGMATCH', inst, fn.where(), 'a feature map with the ids %s: findFeatureRef(%08X) finds %s, expected %s -- a language\'s setting in the Sill table is '
+                                     'applied to another feature (or to none): gr_face_featureval_for_lang no longer returns the defaults overridden by that language\'s entry' %
+                                     (['%08X' % i_ for i_ in combo], q, 'the feature %08X' % got if got is not None else 'nothing', 'the feature %08X' % want if want is not None else 'nothing'))
+                        return
+    except O.Violation as v:
+        run.violated('LANGMATCH', inst, fn.where(), '%s (%s)' % (v.what, v.loc))
+        return
+    except O.AnalysisBroken as ex:
+        run.broken('LANGMATCH', inst, str(ex), fn.where())
+        return
+    run.held('LANGMATCH', inst, fn.where(), '%d lookups' % cases)
+
+
 def run(run):
     fx = run.facts('Q0')
     maskexec(run, fx)
     inoutlang(run, fx)
     langfresh(run, fx)
     sillexec(run, fx)
+    findref_exec(run, fx)
     perfeature(run, fx)
     from . import c01 as c01n_
     from .util import OnlyRules as _OnlyN
